@@ -212,13 +212,14 @@ func cmdCheck(args []string) {
 
 	dir, _ := os.MkdirTemp("", "govc-"+prop)
 	defer os.RemoveAll(dir)
+	maxFailures = 12
 	res := solveAll(obls, dir, timeout, canaryT, agree, 6)
 
 	byFunc := map[string]*funcReport{}
 	for _, f := range funcs {
 		byFunc[f.Name] = f
 	}
-	nObl, nDis, nCanary := 0, 0, 0
+	nObl, nDis, nCanary, nSkipped := 0, 0, 0, 0
 	var solverTotal float64
 	var failed []*SolveResult
 	var knownHit []string
@@ -232,6 +233,10 @@ func cmdCheck(args []string) {
 			if r.Result == "vacuous" {
 				failed = append(failed, r)
 			}
+			continue
+		}
+		if r.Result == "skipped" {
+			nSkipped++
 			continue
 		}
 		nObl++
@@ -329,7 +334,7 @@ func cmdCheck(args []string) {
 	}
 	// obligation-count guard against a harness that silently generates nothing
 	expected := loadExpected(filepath.Join(*verifDir, "contracts", "expected_counts.json"))
-	if min, ok := expected[prop]; ok && nObl+len(excluded) < min {
+	if min, ok := expected[prop]; ok && nObl+len(excluded)+nSkipped < min {
 		violations++
 		p := writeReplay("obligation-count", map[string]interface{}{"property": prop, "obligation": "obligation-count", "what": fmt.Sprintf("only %d obligations generated, expected at least %d", nObl+len(excluded), min)})
 		vioLines = append(vioLines, fmt.Sprintf("VIOLATION property=%s replay=%s no-failing-input-found", prop, p))
@@ -387,6 +392,9 @@ func cmdCheck(args []string) {
 		}
 	}
 	fmt.Printf("property %s tier %s: %d obligations, %d discharged, %d canaries, %d known findings, %d violations, %.1fs\n", prop, *tier, nObl, nDis, nCanary, len(knownHit), violations, wall)
+	if nSkipped > 0 {
+		fmt.Printf("note: %d further obligations were not attempted after %d failures\n", nSkipped, maxFailures)
+	}
 	for _, l := range vioLines {
 		fmt.Println(l)
 	}
